@@ -111,6 +111,46 @@ def _read_patch_quads(text: str):
     return sorted(out)
 
 
+def _third_surface(calls):
+    """the first block edge (corner pair, blockMesh convention) that the calls project to three different surfaces, or None;
+    stops at the first call that is invalid for another reason"""
+    lab = {}
+    for c in calls:
+        touched = []
+        if c[0] == "pside":
+            if c[1] not in BM_SIDE:
+                return None
+            if c[3]:
+                touched = [(frozenset(e), c[2]) for e in BM_EDGES if e <= BM_SIDE[c[1]]]
+        elif c[0] == "pedge":
+            if {c[1], c[2]} not in BM_EDGES:
+                return None
+            touched = [(frozenset((c[1], c[2])), c[3])]
+        elif c[0] == "redges":
+            cs = range(4) if c[2] == "all" else [] if c[2] == "-" else [int(x) for x in c[2].split("+")]
+            for k in cs:
+                lab.pop(frozenset(_slot_pair(("b" if c[1] == "bottom" else "t") + str(k))), None)
+        elif c[0] == "sameproj":
+            for slot in (c[1], c[2]):
+                lab[frozenset(_slot_pair(slot))] = {c[3]}
+        elif c[0] in ("sideedge", "faceedge"):
+            i = c[1] if c[0] == "sideedge" else c[2]
+            if not 0 <= i <= 3:
+                return None
+            lab[frozenset(_slot_pair(("s" if c[0] == "sideedge" else c[1][0]) + str(i)))] = {c[-1]}
+        elif c[0] == "patch" and c[1] not in BM_SIDE:
+            return None
+        elif c[0] == "patchL" and any(x not in BM_SIDE for x in c[1].split("+") if c[1] != "-"):
+            return None
+        elif c[0] in ("pcorner", "pcornerL") and not 0 <= c[1] < 8:
+            return None
+        for e, l in touched:
+            lab.setdefault(e, set()).add(l)
+            if len(lab[e]) > 2:
+                return e
+    return None
+
+
 def _fr(x) -> str:
     return core.rat(Fraction(x))
 
@@ -138,8 +178,10 @@ class C10(core.Check):
         "Theorems: face re-indexing for all faces / counts / distances, addressing on all sides, corner pairs and corners, the "
         "tables against the hexahedron and each other, outward normals for every affine image of the cube, first-minimum / "
         "first-maximum choice of get_closest_side / get_normal_face. Not theorems: float rounding of norms and cosines (the "
-        "generator keeps a margin), python's deque.rotate beyond counts -9..9 (the model has period 4), Extrude by a scalar "
-        "amount and Connector's alignment measure (square roots; oracle only), which corner of a Connector becomes which (C18)."
+        "generator keeps a margin), python's deque.rotate for counts other than the 35 executed ones (the model equals the table "
+        "function at count mod 4 for every count), rotations / scalar extrusions whose cosine, sine or normal length is irrational "
+        "(theorems hold through witnesses, correspondence only on rational instances), Connector's alignment measure (oracle on the "
+        "choice of faces only), which corner of a Connector becomes which (C18), outward normals of revolved blocks."
     )
     assumptions = [
         "the face/operation model mirrors python list semantics (deque.rotate, list.reverse, stable sort) — validated by correspondence",
@@ -182,7 +224,7 @@ class C10(core.Check):
             base = rng.choice(["loft"] * 5 + ["box", "extrude", "revolve", "revolve", "wedge", "wedge"])
             for _ in range(rng.randint(1, 6)):
                 r = rng.random()
-                lab = rng.choice(["g1", "g2"])
+                lab = rng.choice(["g1", "g2"] * 4 + ["g3"])  # a third surface: an edge takes at most two
                 if base == "wedge" and r < 0.12:
                     calls.append(["wedgepatch", rng.choice(["set_inner_patch", "set_outer_patch"]), rng.choice(["pa", "pb", "pc"])])
                 elif r < 0.04:
@@ -256,6 +298,29 @@ class C10(core.Check):
                         hist.append(["clear"])
                 case["history"] = hist
             cases.append(case)
+        # three surfaces on one edge, reached by different routes (project_edge from either end, project_side with edges of
+        # one of the two sides through the edge, add_edge / add_side_edge with a Project): refused at the third *different*
+        # one, accepted when a label repeats or the datum was replaced in between
+        for _ in range(14 if tier == "quick" else 200):
+            a, b = sorted(rng.choice(BM_EDGES))
+            through = [sd for sd, q in BM_SIDE.items() if {a, b} <= q]
+            labs = rng.sample(["g1", "g2", "g3"], 3)
+            if rng.random() < 0.35:
+                labs[rng.randrange(1, 3)] = labs[0]  # only two different surfaces
+            calls = []
+            for lab_ in labs:
+                r = rng.random()
+                if r < 0.5:
+                    calls.append(["pedge", *rng.choice([(a, b), (b, a)]), lab_])
+                else:
+                    calls.append(["pside", rng.choice(through), lab_, 1, int(rng.random() < 0.3)])
+                if rng.random() < 0.15:
+                    calls.append(["patch", rng.choice(sides[:6]), "pa"])
+            if rng.random() < 0.2:
+                # the datum is replaced before the third label arrives
+                slot = next((f + str(i) for f in "bts" for i in range(4) if set(_slot_pair(f + str(i))) == {a, b}))
+                calls.insert(len(calls) - 1, ["sideedge", int(slot[1]), "g1"] if slot[0] == "s" else ["faceedge", {"b": "bottom", "t": "top"}[slot[0]], int(slot[1]), "g1"])
+            cases.append({"kind": "addr", "base": rng.choice(["loft", "box", "revolve"]), "calls": calls})
         cases += self._geo_cases(rng, n // 3 if tier == "quick" else n // 4)
         if tier == "thorough":
             for base in ("box", "extrude", "revolve", "wedge"):
@@ -365,6 +430,42 @@ class C10(core.Check):
             else:
                 amount = str(F(rng.choice([-1, 1]) * rng.randint(2, 12), 8))
             out.append({"kind": "extrude", "points": [[str(c) for c in p] for p in base], "amount": amount})
+        for _ in range(max(4, n // 6)):
+            # a scalar amount on a quad lying in a coordinate plane: the raw normal has a rational length, so the model can follow
+            plane = rng.randrange(3)
+            q2 = [[F(x + rng.randint(-2, 2), 8), F(y + rng.randint(-2, 2), 8)] for x, y in ((0, 0), (8, 0), (8, 8), (0, 8))]
+            if rng.random() < 0.5:
+                q2.reverse()
+            h = F(rng.randint(-8, 8), 8)
+            base = [[*pt[:plane], h, *pt[plane:]] for pt in q2]
+            tot = [sum(pt[i] for pt in base) for i in range(3)]
+            sv = [[4 * pt[i] - tot[i] for i in range(3)] for pt in base]
+            cr = lambda a, b: [a[1] * b[2] - a[2] * b[1], a[2] * b[0] - a[0] * b[2], a[0] * b[1] - a[1] * b[0]]
+            nr = [sum(cr(sv[i], sv[(i + 1) % 4])[k] for i in range(4)) for k in range(3)]
+            assert [k for k in range(3) if nr[k] != 0] == [plane]
+            out.append({"kind": "extrude", "points": [[str(c) for c in pt] for pt in base], "amount": str(F(rng.choice([-1, 1]) * rng.randint(2, 12), 8)), "len": str(abs(nr[plane]))})
+        units = [[F(1), F(0), F(0)], [F(0), F(1), F(0)], [F(0), F(0), F(1)], [F(3, 5), F(4, 5), F(0)], [F(0), F(-3, 5), F(4, 5)], [F(2, 3), F(1, 3), F(2, 3)], [F(-6, 7), F(2, 7), F(3, 7)]]
+        for _ in range(max(6, n // 4)):
+            # Revolve by the angle 2·atan(t) (rational cosine and sine) about an axis of rational length through any origin
+            t = F(rng.choice([-1, 1]) * rng.randint(1, 24), 16)
+            k = rng.choice([F(1), F(2), F(1, 2), F(3)])
+            u = rng.choice(units)
+            out.append(
+                {
+                    "kind": "revolvegeo",
+                    "points": [[str(c) for c in pt] for pt in _quad(rng)],
+                    "cos": str((1 - t * t) / (1 + t * t)),
+                    "sin": str(2 * t / (1 + t * t)),
+                    "axis": [str(k * c) for c in u],
+                    "len": str(k),
+                    "origin": [str(F(rng.randint(-16, 16), 8)) for _ in range(3)],
+                }
+            )
+        for _ in range(max(4, n // 6)):
+            # Wedge of a face in the xy-plane away from the x-axis, by the angle 4·atan(t)
+            t = F(rng.randint(1, 12), 64)
+            face = [[F(x + rng.randint(-2, 2), 8), F(y + rng.randint(-2, 2), 8), F(0)] for x, y in ((0, 8), (8, 8), (8, 16), (0, 16))]
+            out.append({"kind": "wedgegeo", "points": [[str(c) for c in pt] for pt in face], "cos2": str((1 - t * t) / (1 + t * t)), "sin2": str(2 * t / (1 + t * t))})
         for _ in range(max(3, n // 6)):
             # two boxes, the second displaced mainly along one axis: a Connector between them
             # (not along axis 2 of the first box: there the viewpoint and the ceiling Connector hands to ViewpointReorienter
@@ -409,7 +510,7 @@ class C10(core.Check):
                 )
             return {"trace": trace, "n0": n0}
 
-        if case["kind"] in ("geo", "box", "extrude", "connector"):
+        if case["kind"] in ("geo", "box", "extrude", "connector", "revolvegeo", "wedgegeo"):
             return self._run_geo(case)
 
         # addressing, observed on the assembled mesh
@@ -562,6 +663,23 @@ class C10(core.Check):
             n = [float(x) for x in base.normal]
             op = cb.Extrude(base, amount)
             return {"points": rp(op.point_array), "pf": [[float(x) for x in p] for p in op.point_array], "normal": n}
+        if case["kind"] == "revolvegeo":
+            import math
+
+            angle = math.atan2(float(Fraction(case["sin"])), float(Fraction(case["cos"])))
+            op = cb.Revolve(cb.Face([fl(p) for p in case["points"]]), angle, fl(case["axis"]), fl(case["origin"]))
+            data = []
+            for e in op.side_edges:
+                ax = getattr(e, "axis", None)
+                vec = getattr(ax, "position", ax)
+                data.append([type(e).__name__, float(getattr(e, "angle", float("nan"))), [float(x) for x in vec] if vec is not None else [float("nan")] * 3])
+            return {"pf": [[float(x) for x in p] for p in op.point_array], "angle": angle, "data": data}
+        if case["kind"] == "wedgegeo":
+            import math
+
+            angle = 2 * math.atan2(float(Fraction(case["sin2"])), float(Fraction(case["cos2"])))
+            op = cb.Wedge(cb.Face([fl(p) for p in case["points"]]), angle)
+            return {"pf": [[float(x) for x in p] for p in op.point_array], "angle": angle}
         if case["kind"] == "connector":
             from classy_blocks.construct.operations.connector import Connector
 
@@ -625,6 +743,13 @@ class C10(core.Check):
             return [f"c10.geo {pts} {qs}"]
         if case["kind"] == "box":
             return ["c10.box " + ",".join(_fr(c) for c in case["p"]) + " " + ",".join(_fr(c) for c in case["q"])]
+        if case["kind"] == "revolvegeo":
+            return ["c10.revolve " + " ".join(",".join(_fr(c) for c in p) for p in case["points"]) + f" {_fr(case['cos'])} {_fr(case['sin'])} "
+                    + ",".join(_fr(c) for c in case["axis"]) + " " + _fr(case["len"]) + " " + ",".join(_fr(c) for c in case["origin"])]
+        if case["kind"] == "wedgegeo":
+            return ["c10.wedge " + " ".join(",".join(_fr(c) for c in p) for p in case["points"]) + f" {_fr(case['cos2'])} {_fr(case['sin2'])}"]
+        if case["kind"] == "extrude" and case.get("len"):
+            return ["c10.extrudes " + " ".join(",".join(_fr(c) for c in p) for p in case["points"]) + f" {_fr(case['amount'])} {_fr(case['len'])}"]
         if case["kind"] == "extrude":
             if not isinstance(case["amount"], list):
                 return []
@@ -650,7 +775,7 @@ class C10(core.Check):
             if not cos > 1 - 1e-9:
                 return f"Face.normal: implementation {impl['n0']}, model direction {[x / length for x in raw]}"
             return None
-        if case["kind"] in ("geo", "box", "extrude", "connector"):
+        if case["kind"] in ("geo", "box", "extrude", "connector", "revolvegeo", "wedgegeo"):
             return self._compare_geo(case, impl, model)
         ans = model[0]
         if "reject" in impl:
@@ -695,6 +820,12 @@ class C10(core.Check):
         if case["kind"] == "connector":
             return None
         if case["kind"] == "extrude" and not model:
+            return None
+        if case["kind"] in ("revolvegeo", "wedgegeo") or (case["kind"] == "extrude" and case.get("len")):
+            want = [[float(Fraction(x)) for x in p] for p in pts_of(model[0])]
+            got = impl["pf"]
+            if len(want) != 8 or any(abs(a - b) > 1e-9 for p, q in zip(got, want) for a, b in zip(p, q)):
+                return f"{case['kind']} corners: implementation {got}, model {want}"
             return None
         if case["kind"] in ("box", "extrude"):
             if not same_pts(impl["points"], pts_of(model[0])):
@@ -762,12 +893,16 @@ class C10(core.Check):
                             }
                         )
             return out
-        if case["kind"] in ("geo", "box", "extrude", "connector"):
+        if case["kind"] in ("geo", "box", "extrude", "connector", "revolvegeo", "wedgegeo"):
             return self._oracle_geo(case, impl)
         base = case.get("base", "loft")
+        overflow = _third_surface(case["calls"])
+        if "reject" not in impl and overflow:
+            out.append({"site": "Project.add_label:third-surface-accepted", "what": f"{case['calls']}: edge {sorted(overflow)} is projected to three surfaces"})
+            return out
         if "reject" in impl:
-            # a rejection is a violation only when every call was a valid one
-            valid = all(
+            # a rejection is a violation only when every call was a valid one and no edge was given a third surface
+            valid = overflow is None and all(
                 (c[0] in ("patch", "pside") and c[1] in BM_SIDE)
                 or (c[0] == "patchL" and all(x in BM_SIDE for x in c[1].split("+") if c[1] != "-"))
                 or c[0] in ("redges", "sameproj")
@@ -907,6 +1042,37 @@ class C10(core.Check):
                     out.append({"site": "Box.__init__:corner-not-in-blockMesh-order", "what": f"Box({case['p']}, {case['q']}): corner {c} is {got[c]}", "expected": [str(x) for x in want]})
                     break
             return out
+        if case["kind"] in ("revolvegeo", "wedgegeo"):
+            base = np.array([[float(F(c)) for c in pt] for pt in case["points"]])
+            got = np.array(impl["pf"])
+
+            def turn(p, ang, ax, org):
+                ax = np.array(ax, dtype=float)
+                u = ax / np.linalg.norm(ax)
+                r = np.array(p) - np.array(org)
+                return np.array(org) + np.cos(ang) * r + np.sin(ang) * np.cross(u, r) + (1 - np.cos(ang)) * np.dot(u, r) * u
+
+            if case["kind"] == "revolvegeo":
+                ax, org = [float(F(c)) for c in case["axis"]], [float(F(c)) for c in case["origin"]]
+                for i in range(4):
+                    if np.linalg.norm(got[i] - base[i]) > 1e-9 or np.linalg.norm(got[i + 4] - turn(base[i], impl["angle"], ax, org)) > 1e-9:
+                        out.append({"site": "Revolve.__init__:top-face-is-not-the-base-turned-by-the-angle", "what": f"{case}: corner {i} {got[i].tolist()} -> {got[i + 4].tolist()}"})
+                        break
+                for i, (cls, ang, dax) in enumerate(impl["data"]):
+                    # the datum on side edge i must describe the arc from corner i to corner i+4: turning corner i by the
+                    # datum's angle about the datum's axis (through the revolve's origin) gives corner i+4
+                    ok = cls == "Angle" and np.linalg.norm(turn(got[i], ang, dax, org) - got[i + 4]) < 1e-9
+                    if not ok:
+                        out.append({"site": "Revolve.side-edge-data:not-the-arc-between-its-two-corners", "what": f"{case}: side edge {i} holds {cls} angle {ang} axis {dax}"})
+                        break
+            else:
+                half = impl["angle"] / 2
+                for i in range(4):
+                    lo, hi = turn(base[i], -half, [1, 0, 0], [0, 0, 0]), turn(base[i], half, [1, 0, 0], [0, 0, 0])
+                    if np.linalg.norm(got[i] - lo) > 1e-9 or np.linalg.norm(got[i + 4] - hi) > 1e-9:
+                        out.append({"site": "Wedge.__init__:not-symmetric-about-the-given-face", "what": f"{case}: corner {i} {got[i].tolist()}, corner {i + 4} {got[i + 4].tolist()}"})
+                        break
+            return out
         if case["kind"] == "extrude":
             base = np.array([[float(F(c)) for c in pt] for pt in case["points"]])
             am = case["amount"]
@@ -979,8 +1145,8 @@ class C10(core.Check):
             return "face:" + "+".join(sorted({o[0] for o in case["ops"]}))
         if case["kind"] == "geo":
             return "geo:" + ("jittered" if case["jitter"] else "affine") + (":inside-out" if case["det"].startswith("-") else "")
-        if case["kind"] in ("box", "extrude", "connector"):
-            return case["kind"]
+        if case["kind"] in ("box", "extrude", "connector", "revolvegeo", "wedgegeo"):
+            return case["kind"] + (":scalar-rational-normal" if case["kind"] == "extrude" and case.get("len") else "")
         if "reject" in impl:
             return "addr:rejected:" + impl["reject"]
         b = case.get("base", "loft")
